@@ -16,12 +16,17 @@ HEAD = ['#include "/include/vcommon.h"', 'string oid = "?";', 'int vsel; GLOBALS
         'void cb (string s) { VL ("cb " + s); }',
         'int add3 (int a, int b, int c) { return a + b + c; }']
 DECL = "mixed e; object p0; mixed a; string s;"
+# entry points of the backend cycles (`injectbe`): the driver calls these itself
+BE_WRAPPERS = ["void heart_beat () { run (); }", "void reset () { run (); }", "int clean_up (int inh) { run (); return 1; }"]
+BE_OPS = {"cmd": "(becmd u1 t %s)", "hb": "(behb t %s)", "reset": "(bereset t %s)", "cleanup": "(becleanup t %s)"}
+BE_PREP = {"cmd": "", "hb": "set_heart_beat (1);", "reset": "", "cleanup": ""}
 
 
 class Builder:
     """builds one LPC program + its op list"""
 
-    def __init__(self, rng, cid, budget):
+    def __init__(self, rng, cid, budget, no_cg=False):
+        self.no_cg = no_cg   # the evaluation runs without an interactive command_giver (heart beat, reset, clean_up)
         self.rng = rng
         self.cid = cid
         self.n = 0
@@ -31,10 +36,14 @@ class Builder:
         self.budget = budget
         self.kinds = {}
         self.in_rep = 0
+        self.verb_used = False  # one command verb per program (fixed entry point gobody)
+        self.nf_used = False  # one notify_fail() callback per program (fixed entry point nfbody)
         self.in_safe = 0     # sprintf() refuses to run inside the object_name() master call
         # enable_commands() makes this_object() the command giver, after which input_to() is a no-op:
         # a program uses one of the two features
         self.use_setcg = rng.chance(1, 2)
+        if no_cg:
+            self.use_setcg = True    # no input_to (needs an interactive command_giver) ...
 
     def fresh(self):
         self.n += 1
@@ -74,10 +83,12 @@ class Builder:
         rng = self.rng
         main = fctx == "t"
         kinds = [("say", 6), ("lcall", 5), ("tmpcall", 3), ("ocall", 4), ("surplus", 2), ("fplocal", 3), ("functional", 3),
-                 ("efunp", 2), ("mapfp", 3), ("mapstr", 2), ("filterfp", 2), ("sortfp", 2), ("unique", 2),
-                 ("catch", 7), ("raise", 3), ("throw", 2), ("safe", 3 if main and not self.in_safe else 0), ("setcg", 2 if main and self.use_setcg else 0),
+                 ("efunp", 2), ("mapfp", 3), ("mapstr", 2), ("filterfp", 2), ("sortfp", 2), ("unique", 2), ("mapmap", 2), ("filtermap", 1), ("uniquemap", 2),
+                 ("catch", 7), ("raise", 3), ("throw", 2), ("safe", 3 if main and not self.in_safe else 0), ("setcg", 2 if main and self.use_setcg and not self.no_cg else 0),
                  ("install", 2 if main and not self.use_setcg else 0), ("installbad", 2 if main and not self.use_setcg else 0), ("load", 2 if main and not self.in_rep else 0),
                  ("clone", 2 if main else 0),
+                 ("verbcmd", 3 if main and not self.no_cg and not self.verb_used and not self.in_rep else 0),
+                 ("notifyfail", 3 if main and not self.no_cg and not self.nf_used and not self.in_rep else 0),
                  ("arity", 5), ("inithook", 3 if main and not self.in_rep else 0), ("dhook", 3 if main and not self.in_rep else 0)]
         k = rng.weighted(kinds)
         self.count(k)
@@ -147,6 +158,18 @@ class Builder:
             b, o = self.sub(fctx, depth)
             f = self.fn(fctx, b, params="object x", ret="int", tail="return 1;")
             stmts.append("a = unique_array (({ this_object () }), (: %s :));" % f)
+            ops.append("(tmp 2 (handler %d (cb fplocal %s 1 1 %s)))" % (self.fresh(), t, " ".join(o)))
+        elif k in ("mapmap", "filtermap"):
+            # map / filter over a mapping (lib/lpc/mapping.c map_mapping / filter_mapping): callback (key, value)
+            b, o = self.sub(fctx, depth)
+            f = self.fn(fctx, b, params="int x, int y", ret="int", tail="return x;")
+            stmts.append("a = %s (([ 1 : 2 ]), (: %s :));" % ("map" if k == "mapmap" else "filter", f))
+            ops.append("(tmp 3 (cb fplocal %s 2 2 %s))" % (t, " ".join(o)))
+        elif k == "uniquemap":
+            # unique_mapping (lib/lpc/mapping.c): T_ERROR_HANDLER slot held across the callback
+            b, o = self.sub(fctx, depth)
+            f = self.fn(fctx, b, params="int x", ret="int", tail="return 1;")
+            stmts.append("a = unique_mapping (({ 7 }), (: %s :));" % f)
             ops.append("(tmp 2 (handler %d (cb fplocal %s 1 1 %s)))" % (self.fresh(), t, " ".join(o)))
         elif k == "catch":
             b, o = self.sub(fctx, depth)
@@ -222,6 +245,23 @@ class Builder:
             else:
                 stmts.append("evaluate ((: %s :)%s);" % (name, (", " + args) if args else ""))
                 ops.append("(call fplocal %s %d %d %s)" % (t, passed, declared, body_ops))
+        elif k == "verbcmd":
+            # command("go"): user_parser() sets last_verb around the call of the verb function (add_action of /c05/user)
+            self.verb_used = True
+            b, o = self.sub(fctx, depth)
+            f = self.fn(fctx, b)
+            self.files[fctx]["fns"].append("void gobody () { %s (); }" % f)
+            stmts.append('"/c05/user"->gocmd ();')
+            ops.append("(call other u1 0 0 (tmp 1 (withcg u1 (verb go (call other u1 1 1 (say dogo) (call other %s 0 0 (call local %s 0 0 %s)))))))" % (t, t, " ".join(o)))
+        elif k == "notifyfail":
+            # a command nobody handles: user_parser() -> notify_no_command() pushes command_giver on its save stack and calls
+            # the notify_fail() function pointer; the body of that callback is generated
+            self.nf_used = True
+            b, o = self.sub(fctx, depth)
+            f = self.fn(fctx, b)
+            self.files[fctx]["fns"].append("void nfbody () { %s (); }" % f)
+            stmts.append('"/c05/user"->failcmd ();')
+            ops.append("(call other u1 0 0 (say set-cg) (setreg cg u1) (tmp 1 (withcg u1 (safefp u1 0 0 (say nf) (call other %s 0 0 (call local %s 0 0 %s))))))" % (t, t, " ".join(o)))
         elif k == "inithook":
             # an object with an init() hook moves itself into the room where the living `mob` stands:
             # move_object() sets command_giver = mob and applies init() in the object
@@ -264,6 +304,7 @@ class Builder:
         lines.append("string vname () { %s return \"n\"; }" % " ".join(f["vname"]))
         lines += f["fns"]
         if name == "t":
+            lines += BE_WRAPPERS
             lines.append('void prep () { object p0; vsel = 0; "/c05/master"->refill (6); %s }' % " ".join(self.prep))
         return "\n".join(lines) + "\n"
 
@@ -287,9 +328,22 @@ def case_from(cid, files, run_src_ops, extra_head=(), tail=(), inject="inject t 
 
 
 def build_case(rng, cid, budget):
-    b = Builder(rng, cid, budget)
+    be = rng.choice(["cmd", "hb", "reset", "cleanup"]) if rng.chance(1, 5) else None
+    b = Builder(rng, cid, budget, no_cg=be in ("hb", "reset", "cleanup"))
     stmts, ops = b.block("t", 0, n=rng.range(1, 4))
     b.files["t"]["fns"].append("mixed run () { %s %s return 1; }" % (DECL, " ".join(stmts)))
+    if be:
+        # the evaluation is one cycle of the REAL backend(): a command line of user u1 (process_user_command), the
+        # heart beat of t (call_heart_beat) or reset() / clean_up() of t (look_for_objects_to_swap)
+        b.prep.append(BE_PREP[be])
+        b.kinds["backend_" + be] = 1
+        files = {name: b.source(name) for name in b.files}
+        c = case_from(cid, files, BE_OPS[be] % " ".join(ops), extra_head=["setcg 0"], inject="injectbe " + be)
+        if rng.chance(1, 4):
+            c.lines.insert(0, "maxdepth %d" % rng.range(7, 12))
+            b.kinds["lowdepth"] = 1
+        c.meta["kinds"] = b.kinds
+        return c
     como = rng.chance(1, 6)
     if como:
         # the evaluation is the real call_out() sweep: prep schedules two callbacks; an error in the first must not
@@ -315,14 +369,14 @@ def build_case(rng, cid, budget):
     return c
 
 
-def fixed_case(cid, run_body, ops, fns=(), prep="", tail=(), inject="inject t run", vname="", extra_files=None):
-    src = "\n".join([l.replace("CREATE", "").replace("GLOBALS", "") for l in HEAD] + list(fns) +
+def fixed_case(cid, run_body, ops, fns=(), prep="", tail=(), inject="inject t run", vname="", extra_files=None, extra_head=()):
+    src = "\n".join([l.replace("CREATE", "").replace("GLOBALS", "") for l in HEAD] + ["mixed run ();"] + BE_WRAPPERS + list(fns) +
                     ['string vname () { %s return "n"; }' % vname,
                      'void prep () { object p0; vsel = 0; "/c05/master"->refill (6); %s }' % prep,
                      "mixed run () { %s %s return 1; }" % (DECL, run_body)]) + "\n"
     files = {"t": src}
     files.update(extra_files or {})
-    c = case_from(cid, files, ops, tail=tail, inject=inject)
+    c = case_from(cid, files, ops, tail=tail, inject=inject, extra_head=extra_head)
     c.meta["origin"] = "boundary"
     return c
 
@@ -397,9 +451,16 @@ CATCHSTMT = 'p0 = this_player (); e = catch (%s); VL ("catch " + e + (e && this_
 class C05(Prop):
     id = "C05"
     title = "after any LPC error the machine state is as before the failed call"
-    lean_modules = ["NV.C05.Exec", "NV.C05.Guards", "NV.C05.Tie", "NV.C05.Props", "NV.C05.Witness"]
+    lean_modules = ["NV.C05.Exec", "NV.C05.Guards", "NV.C05.Tie", "NV.C05.Props", "NV.C05.Backend", "NV.C05.Witness"]
     theorems = ["NV.C05.tie_save_context", "NV.C05.tie_safe_recovery_point", "NV.C05.tie_restore_offset",
                 "NV.C05.tie_depth_tests", "NV.C05.tie_statement_shapes", "NV.C05.tie_frame_codes",
+                "NV.C05.tie_context_fields_saved", "NV.C05.tie_every_field_saved_is_restored", "NV.C05.tie_context_globals",
+                "NV.C05.tie_frame_registers", "NV.C05.tie_frame_saved_is_restored", "NV.C05.tie_all_globals_classified",
+                "NV.C05.tie_classes_match_source", "NV.C05.tie_command_giver_stack", "NV.C05.tie_callback_handlers",
+                "NV.C05.tie_backend_shapes", "NV.C05.tie_catch_value_order", "NV.C05.tie_handler_flag", "NV.C05.tie_handler_limit_state", "NV.C05.tie_hook_globals_apart", "NV.C05.raise_sets_catch_value_after_handler",
+                "NV.C05.driver_restores", "NV.C05.model_satisfies_spec_driver",
+                "NV.C05.backend_cycle_restores", "NV.C05.model_satisfies_spec_backend", "NV.C05.restoreContext_verb",
+                "NV.C05.saveContext_verb", "NV.C05.judgeObs_nil_of_core", "NV.C05.hbOffStep_spec", "NV.C05.raiseInner_uncaught_switches_heart_beat_off", "NV.C05.hbOffStep_same", "NV.C05.verbFinish_good", "NV.C05.hbFinish_good",
                 "NV.C05.safeFpFinish_total", "NV.C05.safeApply_all_arities", "NV.C05.call_all_arities", "NV.C05.safeFinish_total",
                 "NV.C05.saveContext_refuses_iff", "NV.C05.catch_refused", "NV.C05.safeApply_refused",
                 "NV.C05.context_chain_restored_any", "NV.C05.model_satisfies_spec", "NV.C05.exec_keeps_extension", "NV.C05.top_restores", "NV.C05.catch_yields_message_exec",
@@ -418,7 +479,8 @@ class C05(Prop):
                         "NV.C05.throw_does_not_reset_guards", "NV.C05.error_resets_guards_example",
                         "NV.C05.caught_throw_in_load_restores_guards", "NV.C05.catch_in_create_keeps_depth",
                         "NV.C05.caught_throw_in_dhook_restores_guards", "NV.C05.catch_at_limit_keeps_chain",
-                        "NV.C05.safe_apply_at_limit_keeps_chain"]
+                        "NV.C05.safe_apply_at_limit_keeps_chain", "NV.C05.heart_beat_error_switches_it_off",
+                        "NV.C05.safe_apply_error_in_heart_beat_switches_it_off"]
     consts = [("frameFunction", "FRAME_FUNCTION"), ("frameFunp", "FRAME_FUNP"), ("frameCatch", "FRAME_CATCH"),
               ("frameFake", "FRAME_FAKE"), ("frameMask", "FRAME_MASK"),
               ("esStackFull", "ES_STACK_FULL"), ("esMaxEvalCost", "ES_MAX_EVAL_COST"),
@@ -430,29 +492,38 @@ class C05(Prop):
     thorough_n = 600
     search_n = 150
     design_ref = "5/C05"
-    technique = ("Lean 4 proof (big-step error-recovery machine; the core induction over all op trees is proved; top theorem model_satisfies_spec) + translator-generated "
-                 "constants + fault injection at every instruction of generated LPC programs (hook H2), model/implementation "
-                 "correspondence on outcome sets, register snapshots and control-stack shapes")
+    technique = ("Lean 4 proof (big-step error-recovery machine; the core induction over all op trees is proved; top theorems model_satisfies_spec, "
+                 "model_satisfies_spec_driver, model_satisfies_spec_backend) + translator-generated constants, statement shapes and the list of every "
+                 "interpreter global with how an unwinding puts it back + fault injection at every instruction of generated LPC programs (hook H2), also "
+                 "inside one cycle of the real backend(), model/implementation correspondence on outcome sets, register snapshots and control-stack shapes")
     level_text = ("Lean 4 theorems about an executable model of save_context/restore_context/pop_context, "
-                  "push/pop_control_stack, do_catch, safe_apply, error_handler and the T_ERROR_HANDLER slots, for all op "
+                  "push/pop_control_stack, do_catch, safe_apply, safe_call_function_pointer, error_handler (guards, heart-beat switch-off, catch_value), "
+                  "the T_ERROR_HANDLER slots, the call_out sweep and one cycle of backend() (command, heart beat, reset/clean_up sweep), for all op "
                   "trees of any nesting depth and every position of the fault; tied to the source by regenerated frame / "
-                  "error-state / origin constants and by running generated LPC programs with a fault injected at every "
-                  "instruction on the real driver and comparing outcome sets, register snapshots and control-stack shapes "
-                  "with the model; the Lean oracle judges every implementation trace")
+                  "error-state / origin constants, statement shapes, the saved/restored field and register lists and a classification of every "
+                  "file-scope global of the interpreter core, and by running generated LPC programs with a fault injected at every "
+                  "instruction on the real driver (also inside the real backend()) and comparing outcome sets, register snapshots (incl. the "
+                  "command_giver save stack, last_verb, both guards, chain depth) and control-stack shapes with the model; the Lean oracle judges "
+                  "every implementation trace, including the value every catch yields after the master's error handler ran")
     level_note = ("trusted: Lean kernel; extract.py; the correspondence harness (differential, only the generated programs); "
                   "registers are opaque values; value-stack depths of efun temporaries are approximated by the generator; "
-                  "heart-beat switch-off in error_handler and console-mode resume are not generated")
+                  "the master's error handler is a fixed function in the model (handlers that run catch() themselves are compared without fault "
+                  "injection); the frame-register clauses are proved for driver-level applies (runTop), for C code calling back (call_out, backend) "
+                  "only sp/csp/chain/guards/command_giver/last_verb; console-mode resume is not generated")
     rule = ("cases = corpus + known-finding inputs + boundary list + seeded random LPC programs (nested local calls, "
             "call_other incl. surplus arguments, function pointers of every kind, map/filter/sort_array/unique_array "
             "callbacks, catch in catch, error()/throw(), safe applies via sprintf(\"%O\"), create() in load_object/new, "
-            "input_to, enable_commands, init() hooks via move_object, move_or_destruct() hooks via destruct, and the program "
-            "as a callback of the real call_out() sweep; arity -3..+3 through call_other / function pointers / the driver's "
+            "input_to, enable_commands, init() hooks via move_object, move_or_destruct() hooks via destruct, command verbs via command(), "
+            "notify_fail() functions, map/filter over mappings, unique_mapping, the program as a callback of the real call_out() sweep and as one "
+            "cycle of the real backend() (a user command, a heart beat, reset(), clean_up()); master error handlers that run catch()/throw()/callbacks; arity -3..+3 through call_other / function pointers / the driver's "
             "safe_apply and safe_call_function_pointer with 0 or 4 locals; every frame kind at exactly limit-2 / limit-1 / limit "
             "frames of a lowered MaxCallDepth); every program is run once per instruction with a fault injected there; a case "
             "is non-trivial when its trace has >= 2 lines; distinct = distinct canonical implementation trace")
-    not_covered = ["heart-beat switch-off in error_handler, the backend() main-loop resume point and reset()/clean_up() recovery are not exercised (the call_out() sweep resume point is)",
-                   "C locals of efuns that are live across a longjmp (observed via ASan only)",
-                   "value-stack depths inside efuns are approximated (only the depth after recovery is observed)"]
+    not_covered = ["fault injection inside a master error handler that itself runs catch()/throw()/callbacks (such handlers are run on the driver without injected faults; the model's handler is a fixed function)",
+                   "'every uncaught first-level error leaves current_heart_beat cleared' is modelled, compared and witnessed, not proved for all programs",
+                   "C locals of efuns that are live across a longjmp: inventoried by the translator (41 call-back sites, 4 with an error-handler slot), observed via ASan on 9 efuns, not proved",
+                   "value-stack depths inside efuns are approximated (only the depth after recovery is observed)",
+                   "preload_objects, console-mode resume, do_slow_shutdown recovery points; varargs callees; get_char"]
 
     # ---- translator (T4-style): statement shapes / orders of the anchor functions, regenerated on every run ----
     def gen_extra(self, ctx, bdir):
@@ -542,14 +613,234 @@ class C05(Prop):
         t2 = re.search(r"CONFIG_INT\s*\(__MAX_CALL_DEPTH__\)\s*-\s*(\d+)", pcs)
         need("push_control_stack", t2, "depth test")
         out.append("/-- push_control_stack: the frame index of the depth test is MaxCallDepth - this -/\ndef pushDepthOffset : Nat := %s" % t2.group(1))
+        out += self.gen_globals(bdir, body, need)
         return "\n".join(out) + "\n"
 
+    # ---- translator: which global variables does an error unwinding have to put back? -----------------------------
+    CORE_OBJECTS = ["interpret", "frame", "stack", "error_context", "apply", "simulate"]
+    CALLBACKS = r"\b(call_function_pointer|apply|apply_master_ob|call_efun_callback|call_function|error)\s*\("
+
+    def gen_globals(self, bdir, body, need):
+        import re
+        import subprocess
+
+        def lst(xs):
+            return "[" + ", ".join('"%s"' % x for x in xs) + "]"
+
+        def pairs(xs):
+            return "[" + ", ".join('("%s", "%s")' % x for x in xs) + "]"
+        out = []
+        # (1) the fields of error_context_t, those written by save_context, those read by restore_context / pop_context
+        hdr = re.sub(r"/\*.*?\*/", "", open(os.path.join(E.REPO, "src/error_context.h")).read(), flags=re.S)
+        m = re.search(r"struct\s+error_context_s\s*\{(.*?)\}\s*error_context_t", hdr, re.S)
+        need("error_context_t", m, "struct error_context_s")
+        fields = [re.findall(r"(\w+)\s*$", d.strip())[0] for d in m.group(1).split(";") if d.strip()]
+        sc = body("src/error_context.c", "save_context")
+        rc = re.sub(r'"[^"\n]*"', '""', body("src/error_context.c", "restore_context"))
+        pc = body("src/error_context.c", "pop_context")
+        written = sorted(set(re.findall(r"econ->(\w+)\s*=[^=]", sc)) | set(re.findall(r"&\s*econ->(\w+)", sc)))
+        read_rc = sorted(set(re.findall(r"econ->(\w+)", rc)))
+        read_pc = sorted(set(re.findall(r"econ->(\w+)", pc)))
+        out.append("/-- fields of `error_context_t` (src/error_context.h) -/\ndef ctxFields : List String := %s" % lst(fields))
+        out.append("/-- fields written by save_context -/\ndef ctxSaved : List String := %s" % lst(written))
+        out.append("/-- fields read by restore_context -/\ndef ctxRestored : List String := %s" % lst(read_rc))
+        out.append("/-- fields read by pop_context -/\ndef ctxPopped : List String := %s" % lst(read_pc))
+        # which global each saved field holds: `econ->f = g;` and the two guards through save_object_limits
+        holds = re.findall(r"econ->(\w+)\s*=\s*(\w+)\s*;", sc)
+        sim = re.sub(r"/\*.*?\*/", "", open(os.path.join(E.REPO, "src/simulate.c")).read(), flags=re.S)
+        sol = re.search(r"void\s+save_object_limits\s*\(\s*int\s*\*\s*(\w+)\s*,\s*object_t\s*\*\*\s*(\w+)\s*\)\s*\{(.*?)\}", sim, re.S)
+        call = re.search(r"save_object_limits\s*\(\s*&econ->(\w+)\s*,\s*&econ->(\w+)\s*\)", sc)
+        if sol and call:
+            for par, fld in ((sol.group(1), call.group(1)), (sol.group(2), call.group(2))):
+                g = re.search(r"\*\s*%s\s*=\s*(\w+)\s*;" % par, sol.group(3))
+                if g:
+                    holds.append((fld, g.group(1)))
+        out.append("/-- save_context: (field, global variable it saves) -/\ndef ctxHolds : List (String × String) := %s" % pairs(sorted(holds)))
+        # (2) the registers a control-stack frame saves and restores
+        pcs = body("src/frame.c", "push_control_stack")
+        pops = body("src/frame.c", "pop_control_stack")
+        fsaved = re.findall(r"csp->(\w+)\s*=\s*(\w+)\s*;", pcs)
+        frest = re.findall(r"\b(\w+)\s*=\s*csp->(\w+)\s*;", pops)
+        out.append("/-- push_control_stack: (frame field, what is stored) -/\ndef frameSaved : List (String × String) := %s" % pairs(fsaved))
+        out.append("/-- pop_control_stack: (global variable, frame field it is restored from) -/\ndef frameRestored : List (String × String) := %s" % pairs(frest))
+        # (3) every global variable of the interpreter core (object files of the current build: data and bss symbols)
+        def unguarded_text(path):
+            """the source text outside `#ifdef NEOLITH_VERIF` regions (an `#else` part of such a region counts as outside)"""
+            keep, stack = [], []      # stack entries: True = this level is a NEOLITH_VERIF region that is active
+            for line in re.sub(r"/\*.*?\*/", lambda mm: "\n" * mm.group(0).count("\n"), open(path, errors="replace").read(), flags=re.S).splitlines():
+                st = line.strip()
+                if re.match(r"#\s*if", st):
+                    stack.append(bool(re.match(r"#\s*(ifdef\s+NEOLITH_VERIF\b|if\s+defined\s*\(?\s*NEOLITH_VERIF\b)", st)))
+                    continue
+                if re.match(r"#\s*else", st) and stack:
+                    stack[-1] = False
+                    continue
+                if re.match(r"#\s*endif", st) and stack:
+                    stack.pop()
+                    continue
+                if not any(stack):
+                    keep.append(line)
+            return "\n".join(keep)
+        globs, hooks = [], []
+        for o in self.CORE_OBJECTS:
+            outside = unguarded_text(os.path.join(E.REPO, "src/%s.c" % o))
+            path = os.path.join(bdir, "src/CMakeFiles/stem.dir/%s.c.o" % o)
+            try:
+                txt = subprocess.run(["nm", path], capture_output=True, text=True).stdout
+            except OSError:
+                txt = ""
+            need("globals", txt, "nm " + path)
+            for line in txt.splitlines():
+                f = line.split()
+                if len(f) == 3 and f[1] in "BbDdC" and re.match(r"^[A-Za-z]\w*$", f[2]) and not f[2].startswith("__"):
+                    # a variable that is only mentioned inside `#ifdef NEOLITH_VERIF` regions of its file belongs to a
+                    # verification hook: it does not exist in the driver proper and cannot influence it
+                    if f[2].startswith("verif_") or not re.search(r"\b%s\b" % re.escape(f[2]), outside):
+                        hooks.append(f[2])
+                    else:
+                        globs.append(f[2])
+        out.append("/-- global variables defined in %s (nm of the build; function-local statics left out; variables of verification "
+                   "hooks, i.e. those mentioned only inside `#ifdef NEOLITH_VERIF` regions, are listed separately) -/\n"
+                   "def coreGlobals : List String := %s" % (", ".join(x + ".c" for x in self.CORE_OBJECTS), lst(sorted(set(globs)))))
+        out.append("/-- variables of verification hooks in the same files (recognised automatically, not evaluation state) -/\n"
+                   "def hookGlobals : List String := %s" % lst(sorted(set(hooks))))
+        # (4) the command_giver save stack: between save_command_giver and restore_command_giver no call that can longjmp
+        unsafe = []
+        users = 0
+        for root in ("src", "lib"):
+            for dp, dn, fn in os.walk(os.path.join(E.REPO, root)):
+                for f in fn:
+                    if not f.endswith(".c"):
+                        continue
+                    t = re.sub(r"/\*.*?\*/", "", open(os.path.join(dp, f), errors="replace").read(), flags=re.S)
+                    for mm in re.finditer(r"\bsave_command_giver\s*\([^;{]*\)\s*;", t):
+                        end = t.find("restore_command_giver", mm.end())
+                        seg = t[mm.end():end if end >= 0 else mm.end() + 2000]
+                        users += 1
+                        for cb in re.finditer(self.CALLBACKS, seg):
+                            before = seg[max(0, cb.start() - 5):cb.start()]
+                            if not before.endswith("safe_"):
+                                unsafe.append("%s:%s" % (f, cb.group(1)))
+        out.append("/-- call sites of save_command_giver (simulate.c command_giver save stack) -/\ndef cgStackUsers : Nat := %d" % users)
+        out.append("/-- calls that can longjmp between save_command_giver and restore_command_giver -/\n"
+                   "def cgStackUnsafeCalls : List String := %s" % lst(sorted(set(unsafe))))
+        # (5) error_handler: the heart beat is switched off on the uncaught path only, after the mudlib handler
+        eh = body("src/error_context.c", "error_handler")
+        hb = eh.find("if (current_heart_beat)")
+        catch_end = eh.find("if (in_error)")
+        last_handler = eh.rfind("mudlib_error_handler (err, 0)")
+        out.append("/-- error_handler: `if (current_heart_beat) set_heart_beat (…, 0)` comes after the catch branch, after the in_error "
+                   "branch and after the uncaught mudlib handler call, and clears current_heart_beat -/\n"
+                   "def errorHandlerHeartBeatOffLast : Bool := %s"
+                   % ("true" if 0 <= catch_end < last_handler < hb and "current_heart_beat = 0" in eh[hb:] and
+                      "set_heart_beat (current_heart_beat, 0)" in eh[hb:] else "false"))
+        # (5b) error_handler, caught branch: catch_value (a global that every catch() executed by the master's handler
+        #      overwrites) is assigned AFTER mudlib_error_handler (err, 1) returned, directly before the longjmp
+        i_h1 = eh.find("mudlib_error_handler (err, 1)")
+        i_cv = eh.find("catch_value.u.string = string_copy")
+        i_free = eh.find("free_svalue (&catch_value")
+        i_jmp = eh.find("longjmp (current_error_context->context, 1)")
+        out.append("/-- error_handler (caught error): the master's handler is applied first, then catch_value is freed and set to the "
+                   "message, then the longjmp; nothing that can run LPC sits between the assignment and the longjmp -/\n"
+                   "def errorHandlerSetsCatchValueAfterHandler : Bool := %s"
+                   % ("true" if 0 <= i_h1 < i_free < i_cv < i_jmp and not re.search(r"\b(apply\w*|mudlib_error_handler|call_\w+)\s*\(", eh[i_cv:i_jmp]) else "false"))
+        # (5c) error_handler: in_mudlib_error_handler is cleared for an error raised inside the master's handler only when that
+        #      error is delivered to the context that was current at the handler's entry (the handler is abandoned)
+        clears = [mm.start() for mm in re.finditer(r"in_mudlib_error_handler\s*=\s*0\s*;", eh)]
+        guard_re = r"if\s*\(current_error_context\s*==\s*mudlib_error_handler_context\)\s*\{?\s*$"
+        guarded = [c for c in clears if re.search(guard_re, eh[:c].rstrip())]
+        entries = len(re.findall(r"mudlib_error_handler_context\s*=\s*current_error_context\s*;\s*(?:in_error\s*=\s*0\s*;\s*)?mudlib_error_handler\s*\(", eh))
+        out.append("/-- error_handler: the two `in_mudlib_error_handler = 0` of the 'error inside the mudlib handler' branches are guarded by "
+                   "`current_error_context == mudlib_error_handler_context`; both handler applies record the entry context -/\n"
+                   "def errorHandlerKeepsFlagInsideHandler : Bool := %s" % ("true" if len(guarded) == 2 and entries == 2 else "false"))
+        # (5d) … and the limit bits (ES_STACK_FULL / ES_MAX_EVAL_COST) of the error the handler runs for are recorded at both
+        #      entries and re-instated in the same two guarded places, i.e. only when the handler is abandoned
+        reinst = [c for c in guarded if re.match(r"in_mudlib_error_handler\s*=\s*0\s*;\s*set_error_state\s*\(handler_limit_state\)\s*;\s*\}", eh[c:])]
+        recorded = len(re.findall(r"handler_limit_state\s*=\s*limit_state\s*;\s*in_mudlib_error_handler\s*=\s*1\s*;", eh))
+        after = len(re.findall(r"mudlib_error_handler\s*\(err,\s*[01]\)\s*;\s*(?:in_error\s*=\s*1\s*;\s*)?in_mudlib_error_handler\s*=\s*0\s*;\s*set_error_state\s*\(limit_state\)", eh))
+        out.append("/-- error_handler: the limit bits are recorded before both handler applies, set again after a handler that returned, and "
+                   "re-instated for an error raised inside the handler only where the flag is cleared (handler abandoned) -/\n"
+                   "def errorHandlerKeepsLimitState : Bool := %s" % ("true" if len(reinst) == 2 and recorded == 2 and after == 2 else "false"))
+        # (6) backend(): one context for the whole loop; recovery = restore_context only; pop_context after the loop
+        be = body("src/backend.c", "backend")
+        i_save, i_set, i_loop, i_pop = be.find("save_context (&econ)"), be.find("if (setjmp (econ.context))"), be.find("while (1)"), be.find("pop_context (&econ)")
+        rec = re.search(r"if\s*\(setjmp\s*\(econ\.context\)\)\s*restore_context\s*\(&econ\)\s*;", be)
+        out.append("/-- backend(): clear_state; save_context; `if (setjmp) restore_context;` before the loop; pop_context after it; "
+                   "current_interactive cleared at the top of the loop -/\ndef backendRecoveryShape : Bool := %s"
+                   % ("true" if rec and 0 <= be.find("clear_state ()") < i_save < i_set < i_loop < i_pop and
+                      re.search(r"while\s*\(1\)\s*\{\s*current_interactive\s*=\s*0\s*;", be) else "false"))
+        sw = body("src/backend.c", "look_for_objects_to_swap")
+        rec2 = re.search(r"save_context\s*\(&econ\)\s*;\s*if\s*\(setjmp\s*\(econ\.context\)\)\s*restore_context\s*\(&econ\)\s*;", sw)
+        out.append("/-- look_for_objects_to_swap(): its own context around the whole sweep (reset / clean_up) -/\ndef sweepRecoveryShape : Bool := %s"
+                   % ("true" if rec2 and sw.find("pop_context (&econ)") > sw.find("APPLY_CLEAN_UP") > 0 else "false"))
+        chb = body("src/backend.c", "call_heart_beat")
+        i1, i2, i3 = chb.find("current_heart_beat = ob"), chb.find("command_giver = ob"), chb.find("call_function (ob->prog")
+        out.append("/-- call_heart_beat(): current_heart_beat and command_giver are set before call_function pushes the frame; cleared after -/\n"
+                   "def heartBeatSetsRegistersBeforeFrame : Bool := %s"
+                   % ("true" if 0 <= i1 < i2 < i3 < chb.find("command_giver = 0", i3) < chb.find("current_heart_beat = 0", i3) else "false"))
+        # (7) inventory: C functions that call back into LPC (a callback can longjmp past them) and whether they leave a
+        #     T_ERROR_HANDLER slot on the value stack that releases / resets what their C locals and statics hold
+        inv = []
+        prim = re.compile(r"\b(call_efun_callback|call_function_pointer|apply|apply_master_ob|safe_apply|safe_call_function_pointer|"
+                          r"call_function|process_efun_callback)\s*\(")
+        files = ["lib/lpc/array.c", "lib/lpc/mapping.c", "src/simulate.c", "src/comm.c", "src/backend.c", "lib/efuns/call_out.c"]
+        edir = os.path.join(E.REPO, "lib/efuns")
+        files += sorted("lib/efuns/" + f for f in os.listdir(edir) if f.endswith(".c") and f != "call_out.c")
+        for rel in files:
+            try:
+                t = open(os.path.join(E.REPO, rel), errors="replace").read()
+            except OSError:
+                continue
+            t = re.sub(r"/\*.*?\*/", "", t, flags=re.S)
+            t = re.sub(r"//[^\n]*", "", t)
+            t = re.sub(r'"(\\.|[^"\\\n])*"', '""', t)
+            depth, start, hdr0 = 0, 0, 0
+            for i, ch in enumerate(t):
+                if ch == "{":
+                    if depth == 0:
+                        start = i
+                        header = t[hdr0:i]
+                    depth += 1
+                elif ch == "}":
+                    depth -= 1
+                    if depth == 0:
+                        fb = t[start:i + 1]
+                        hdr0 = i + 1
+                        mm = re.findall(r"(\w+)\s*\(", header)
+                        if not mm or not re.search(r"\)\s*$", header.strip()):
+                            continue
+                        cbs = sorted(set(x for x in prim.findall(fb) if not x.startswith("safe_")))
+                        if cbs:
+                            inv.append((mm[0] if mm[0] not in ("defined",) else mm[-1], "T_ERROR_HANDLER" in fb, rel))
+                elif ch == ";" and depth == 0:
+                    hdr0 = i + 1
+        out.append("/-- C functions that call back into LPC without a recovery point of their own (callback can longjmp past them): "
+                   "(function, leaves a T_ERROR_HANDLER slot) -/\ndef callbackSites : List (String × Bool) := [%s]"
+                   % ", ".join('("%s", %s)' % (n, "true" if h else "false") for n, h, _ in inv))
+        self.callback_inventory = {"sites": len(inv), "with_error_handler": [n for n, h, _ in inv if h],
+                                   "by_file": {r: sum(1 for _, _, rr in inv if rr == r) for r in sorted(set(r for _, _, r in inv))}}
+        return out
+
     def prepare(self, ctx):
-        self.exe = E.compile_harness("c05", [os.path.join(E.VERIF, "harness/c05/c05.c")])
+        # do_comm_polling() is wrapped at link level: the poll point of a backend() cycle is where the harness scripts events
+        self.exe = E.compile_harness("c05", [os.path.join(E.VERIF, "harness/c05/c05.c")], extra=("-Wl,--wrap=do_comm_polling",))
         self.conf = E.make_mudlib(ctx.rundir, master="/c05/master.c")
 
     def run_impl(self, ctx, cases):
         return E.run_harness(self.exe, self.conf, cases, ctx.rundir)
+
+    def shrink_ok(self, lines):
+        """a shrunk case stays self-contained: the scratch mudlib keeps files written by earlier cases of the same run, so a
+        case without its `src` lines would still "work" there but not as a replay"""
+        srcs = set(l.split()[1] for l in lines if l.startswith("src ") and len(l.split()) >= 3)
+        evaluates = any(l.split()[0] in ("inject", "run", "injectco", "injectbe", "injectsafe", "injectsafefp") for l in lines if l.strip())
+        if evaluates and "/c05/gen/t.c" not in srcs:
+            return False
+        for l in lines:
+            f = l.split()
+            if len(f) == 3 and f[0] == "load" and f[2].startswith("/c05/gen/") and f[2] + ".c" not in srcs:
+                return False
+        return True
 
     def canon(self, lines):
         return [l.rstrip() for l in lines if l.strip() != "" and not l.startswith("info ")]
@@ -625,6 +916,61 @@ class C05(Prop):
             for delta in (-2, -1, 0):
                 for outer in (False, True):
                     B.append(depth_case(action, 8, 8 + delta, outer))
+        # the recovery points of backend(): a command that throws, a heart beat that throws (switched off), reset() and
+        # clean_up() that throw; each also completing, with a caught error, and with a failing safe apply inside (which
+        # switches the heart beat off although heart_beat() goes on: error_handler does not look at who receives the error)
+        be_bodies = [("say", 'VL ("say x");', "(say x)", ""),
+                     ("raise", 'error ("boom1\\n");', "(raise boom1)", ""),
+                     ("throw", 'throw ("t1");', "(throw t1)", ""),
+                     ("caught", CATCHSTMT % "f1 ()" + ' VL ("say after");', "(catch (call local t 0 0 (raise boom2))) (saycatch) (say after)", ""),
+                     ("safe-error", 'vsel = 1; s = sprintf ("%O", this_object ()); VL ("say after");',
+                      "(tmp 1 (safe 1 1 (call other t 0 0 (raise boom3)))) (say after)", 'if (vsel == 1) error ("boom3\\n");'),
+                     ("deep", "f2 ();", "(call local t 0 0 (call other t 0 0 (call fplocal t 0 0 (raise boom4))))", "")]
+        be_fns = ['void f1 () { error ("boom2\\n"); }', 'void f4 () { error ("boom4\\n"); }', "void f3 () { evaluate ((: f4 :)); }",
+                  "void f2 () { this_object ()->f3 (); }"]
+        for kind in ("cmd", "hb", "reset", "cleanup"):
+            for name, stmt, bops, vn in be_bodies:
+                B.append(fixed_case("b-backend-%s-%s" % (kind, name), stmt, BE_OPS[kind] % bops, fns=be_fns, prep=BE_PREP[kind],
+                                    vname=vn, inject="injectbe " + kind, extra_head=["setcg 0"]))
+        # the command_giver save stack (simulate.c): notify_no_command() calls the notify_fail() function with
+        # command_giver pushed; an error in that function must not leave the stack one deeper
+        for name, stmt, bops in (("say", 'VL ("say x");', "(say x)"), ("raise", 'error ("boom1\\n");', "(raise boom1)"),
+                                 ("throw", 'throw ("t1");', "(throw t1)")):
+            for outer in (False, True):
+                call = '"/c05/user"->failcmd ();'
+                o = "(call other u1 0 0 (say set-cg) (setreg cg u1) (tmp 1 (withcg u1 (safefp u1 0 0 (say nf) (call other t 0 0 %s)))))" % bops
+                B.append(fixed_case("b-notify-fail-%s%s" % (name, "-caught" if outer else ""),
+                                    (CATCHSTMT % '"/c05/user"->failcmd ()') if outer else call,
+                                    ("(catch %s) (saycatch)" % o) if outer else o,
+                                    fns=["void nfbody () { %s }" % stmt]))
+        # last_verb (query_verb()): an error in a verb function must not leave it set after the command
+        for name, stmt, bops in (("say", 'VL ("say x");', "(say x)"), ("raise", 'error ("boom1\\n");', "(raise boom1)"),
+                                 ("throw", 'throw ("t1");', "(throw t1)")):
+            for outer in (False, True):
+                call = '"/c05/user"->gocmd ();'
+                o = "(call other u1 0 0 (tmp 1 (withcg u1 (verb go (call other u1 1 1 (say dogo) (call other t 0 0 %s))))))" % bops
+                B.append(fixed_case("b-verb-%s%s" % (name, "-caught" if outer else ""),
+                                    (CATCHSTMT % '"/c05/user"->gocmd ()') if outer else call,
+                                    ("(catch %s) (saycatch)" % o) if outer else o,
+                                    fns=["void gobody () { %s }" % stmt]))
+        # what a catch yields when the master's error_handler itself runs LPC with catch() / throw() / efun callbacks
+        # between "error raised" and "error delivered" (evaluated without fault injection: `run`)
+        hfns = ['void f1 () { error ("boom1\\n"); }', "int f2 (int x) { f1 (); return x; }",
+                "void f3 () { %s %s error (\"boom2\\n\"); }" % (DECL, CATCHSTMT % "f1 ()")]
+        hshapes = [("plain", CATCHSTMT % "f1 ()", "(catch (call local t 0 0 (raise boom1))) (saycatch)"),
+                   ("nested", CATCHSTMT % "f3 ()",
+                    "(catch (call local t 0 0 (catch (call local t 0 0 (raise boom1))) (saycatch) (raise boom2))) (saycatch)"),
+                   ("callback", CATCHSTMT % "map (({ 1 }), (: f2 :))",
+                    "(catch (tmp 3 (cb fplocal t 1 1 (call local t 0 0 (raise boom1))))) (saycatch)"),
+                   ("if", 'if (catch (f1 ())) VL ("say failed"); else VL ("say succeeded");',
+                    "(catch (call local t 0 0 (raise boom1))) (say failed)"),
+                   ("uncaught", 'f1 ();', "(call local t 0 0 (raise boom1))")]
+        # (31 = several errors caught inside ONE handler run: before the repair the driver cleared its "in the mudlib error
+        #  handler" flag at the first one and the second one re-entered the handler recursively - see notes/C05.md)
+        for script in (1, 2, 4, 8, 16, 5, 7, 21, 31):
+            for name, stmt, hops in hshapes:
+                B.append(fixed_case("b-handler-script-%d-%s" % (script, name), stmt, hops, fns=hfns,
+                                    prep='"/c05/master"->set_hscript (%d);' % script, inject="run t run"))
         # a register changed between save_context and the first frame push is not restored (model predicts it)
         B.append(fixed_case("b-setreg-co", "f1 ();", "(call local t 0 0 (say x))", fns=['void f1 () { VL ("say x"); }'],
                             inject="inject t run co probe"))
@@ -639,9 +985,10 @@ class C05(Prop):
 
     # ---- oracle self-test: the string judge must reject hand-made bad traces (one per clause) ----
     def extra_checks(self, ctx, tier, rng):
-        snap = "sp=-1 csp=-1 cg=u1 co=0 po=0 prog=0 ct=0 fp=-1 pc=null fio=0 vio=0 ctx=0 ld=0 rd=0"
-        probe = "caught *probe-err ; probe tp=u1 po=0 d=0 l=0 a=3,4 e=*probe-err  co=42 side in=0"
+        snap = "sp=-1 csp=-1 cg=u1 co=0 po=0 prog=0 ct=0 fp=-1 pc=null fio=0 vio=0 ctx=0 ld=0 rd=0 cgs=0 qv=0"
+        probe = "caught *probe-err ; probe tp=u1 po=0 d=0 l=0 a=3,4 e=*probe-err  co=42 side in=0 hb=0"
         head = ["base " + snap, "probe0 " + probe]
+        hb1 = probe.replace("hb=0", "hb=1")     # a heart-beat case: the heart beat of t is on before every evaluation
 
         def out(segs, after=snap, pr=probe):
             return "outcome %s ; after=%s ; probe=%s" % (" ; ".join(segs), after, pr)
@@ -655,18 +1002,32 @@ class C05(Prop):
             ("pc", [out(["done 1"], snap.replace("pc=null", "pc=set"))], "restore fault pc"),
             ("ld", [out(["caught *x", "catch *x", "done 1"], snap.replace("ld=0", "ld=1"))], "restore fault ld"),
             ("rd", [out(["catch t1", "done 1"], snap.replace("rd=0", "rd=other"))], "restore fault rd"),
+            ("cgs", [out(["err *x", "fault-top"], snap.replace("cgs=0", "cgs=1"))], "restore fault cgs"),
+            ("qv", [out(["err *x", "fault-top"], snap.replace("qv=0", "qv=set"))], "restore fault qv"),
             ("probe", [out(["done 1"], pr=probe.replace("a=3,4", "a=3"))], "probe fault differs"),
             ("probe-destruct", [out(["done 1"], pr=probe.replace("d=0", "d=*Only this_object() can be destructed"))], "probe fault differs"),
             ("half-install", [out(["caught nf", "catch nf", "done 1"], pr=probe.replace("in=0", "in=1"))], "half-install"),
             ("catch-value", [out(["caught *boom1", "catch *other", "done 1"])], "catch-value"),
+            ("catch-value-zero", [out(["caught *boom1", "catch 0", "done 1"])], "catch-value"),
+            ("catch-value-one", [out(["caught *boom1", "catch 1", "done 1"])], "catch-value"),
+            ("catch-value-stale", [out(["catch *boom1", "done 1"])], "catch-value"),
             ("cg-changed", [out(["caught *boom1", "catch *boom1 cg-changed", "done 1"])], "command_giver not restored by catch"),
+            ("hb-off-unreported", ["probe0 " + hb1, out(["caught *boom1", "catch *boom1", "done be"]).replace("outcome ", "free ", 1)], "heart-beat"),
+            ("hb-off-fault-caught", ["probe0 " + hb1, out(["caught *verif injected fault", "catch *verif injected fault", "done be"])], "heart-beat"),
+            ("hb-stays-on", ["probe0 " + hb1, out(["fault-top", "loop " + snap], pr=hb1)], "still on after"),
+            ("loop-cg", [out(["err *x", "fault-top", "loop " + snap.replace("cg=u1", "cg=t")])], "restore fault-loop cg"),
+            ("loop-csp", [out(["err *x", "fault-top", "loop " + snap.replace("csp=-1", "csp=0")])], "restore fault-loop csp"),
             ("crash-line", ["crash signal 11"], "crash"),
             ("sanitizer", ["sanitizer ERROR: AddressSanitizer: SEGV"], "crash"),
         ]
         pos = [("ok-fault", [out(["err *verif injected fault", "fault-top"])]),
                ("ok-setcg", [out(["say set-cg", "done 1"], snap.replace("cg=u1", "cg=t"))]),
                ("ok-install", [out(["say did-input_to", "done 1"], pr=probe.replace("in=0", "in=1"))]),
-               ("ok-throw", [out(["catch t7", "done 1"])])]
+               ("ok-throw", [out(["catch t7", "done 1"])]),
+               ("ok-caught", [out(["caught *boom1", "catch *boom1", "err *boom2", "fault-top"])]),
+               ("ok-caught-then-plain", [out(["caught *boom1", "catch *boom1", "catch 0", "done 1"])]),
+               ("ok-hb-off", ["probe0 " + hb1, out(["err *boom1", "fault-top", "loop " + snap])]),
+               ("ok-loop", [out(["done be", "loop " + snap])])]
         cases, want = [], {}
         for name, lines, expect in neg:
             cid = "oracle-neg-" + name
@@ -703,6 +1064,10 @@ class C05(Prop):
                     h["faults_reaching_driver"] = h.get("faults_reaching_driver", 0) + 1
                 if l.startswith("outcome") and "catch *verif injected fault" in l:
                     h["faults_caught"] = h.get("faults_caught", 0) + 1
+        inv = getattr(self, "callback_inventory", None)
+        if inv:
+            h["callback_sites_in_source"] = inv["sites"]
+            h["callback_sites_with_error_handler"] = len(inv["with_error_handler"])
         return h
 
 
